@@ -675,3 +675,5 @@ PROPS["C07"]["suites"] += [{"name": "fxa", "quick": 600, "thorough": 10000}, {"n
 # (`DelayBuilder::add_feedback_effect`) are kept and driven by suite `syscore` (`fx.sub`, mirrored by the twin;
 # oracle-only op `nest`: a user-defined command probe and a volume control at depth 1–3).
 PROPS["C07"]["suites"] += [{"name": "syscore", "quick": 250, "thorough": 4000}]
+# C06 "every tween of every parameter": the delay's and the reverb's parameters (suite `fxb`: tween-timing family, `twchk`).
+PROPS["C06"]["suites"] += [{"name": "fxb", "quick": 800, "thorough": 15000}]
